@@ -153,6 +153,8 @@ def run_xr_case(case):
                     else:
                         passthrough_ok = False
             out["bad_vars"] = bad
+            # variables whose DIMENSIONS differ from native's (not only their values)
+            out["bad_dim_vars"] = [k for k in bad if k in native.data_vars and k in flox.data_vars and set(native[k].dims) != set(flox[k].dims)]
             out["same_values"] = bool(not bad)
             out["var_dims"] = var_dims
             out["eff_reduce"] = sorted(eff)
@@ -188,7 +190,8 @@ def build(dims, grouper, dim_i, func, skipna, data, chunked, dataset, keep_attrs
     if not set(gd) <= set(dims):
         return None
     rest = [d for d in dims if d not in gd]
-    options = ["default", "all"] + [gd + list(c) for r in range(1, len(rest) + 1) for c in itertools.combinations(rest, r)][:2]
+    # (the last option names only dimensions the grouper does NOT have: a plain reduction inside every group)
+    options = ["default", "all"] + [gd + list(c) for r in range(1, len(rest) + 1) for c in itertools.combinations(rest, r)][:2] + ([[rest[-1]]] if rest else [])
     dimarg = options[dim_i % len(options)]
     if func in ("first", "last") and (dimarg != "default" or len(gd) > 1 or chunked):
         return None
@@ -216,7 +219,7 @@ def run(ctx):
     if res.violated:
         raise MachineryFailure(f"MC_XrDims: {res.violated} violated")
     allperms = [p for r in (1, 2, 3) for s in itertools.combinations(["x", "y", "z"], r) for p in itertools.permutations(s)] + [("z", "x", "y", "t"), ("x", "t", "y", "z")]
-    sp = gen.Space("objs", {"dims": allperms, "grouper": ["coord1d", "ext1d", "coord2d", "ext2d"], "dim_i": range(4), "func": FUNCS,
+    sp = gen.Space("objs", {"dims": allperms, "grouper": ["coord1d", "ext1d", "coord2d", "ext2d"], "dim_i": range(5), "func": FUNCS,
                             "skipna": [None, True, False], "data": ["nan", "float", "int", "bool"], "chunked": [False, True], "dataset": [False, True],
                             "keep_attrs": [True, False], "min_count": [None, 1, 3]}, build)
     cases = sp.sample(ctx.rng, 3000 if ctx.tier == "quick" else 60000)
@@ -230,7 +233,7 @@ def run(ctx):
         ctx.cov["evaluations"] += 1
         if rec.get("skipped"):
             continue
-        brief = {k: rec.get(k) for k in ("dims", "grouper", "dim", "func", "skipna", "data", "chunked", "dataset", "keep_attrs", "min_count", "exc", "msg", "bad_vars", "var_dims", "eff_reduce", "reduce", "gdims")}
+        brief = {k: rec.get(k) for k in ("dims", "grouper", "dim", "func", "skipna", "data", "chunked", "dataset", "keep_attrs", "min_count", "exc", "msg", "bad_vars", "bad_dim_vars", "var_dims", "eff_reduce", "reduce", "gdims")}
         if "exc" in rec:
             if rec["exc"] in redcase.CLEAN_REFUSALS:
                 ctx.cov["refused_cleanly"] = ctx.cov.get("refused_cleanly", 0) + 1
